@@ -226,7 +226,7 @@ def validate_tool_result(result: ToolResult) -> bool:
 def tool_result_to_dict(result: ToolResult) -> Dict[str, Any]:
     """Convert a tool result to a dictionary for JSON serialization."""
     if hasattr(result, "model_dump"):
-        return result.model_dump(exclude_none=True)
+        return result.model_dump(exclude_none=True, by_alias=True)
     elif isinstance(result, dict):
         return result
     else:
